@@ -14,7 +14,8 @@ import gv
 PROP = "C01"
 REQ_PROPS = ["GV.Props.Props_C01"]
 REQ_RUN = ["GV.Mvcc.Run"]
-CLASSES = {1: "C01-K1", 2: "C01-K2", 3: "C01-K3", 4: "C01-K4", 5: "C01-K5", 6: "C01-K6"}
+CLASSES = {1: "C01-K1", 2: "C01-K2", 3: "C01-K3", 4: "C01-K4", 5: "C01-K5", 6: "C01-K6", 7: "C01-K7"}
+TAG = os.environ.get("GV_OUT_TAG", "")     # set by tools/seedtest.sh: keeps scratch runs apart from registered runs
 
 TRUSTED = [
     "Coq 8.16.1 kernel (coqc; vm_compute runs the model and the specification; no native_compute)",
@@ -40,11 +41,17 @@ def split_term(c):
     return c["coq"][len("chk_hist "):]
 
 
-def derive_failures(cases, vals, kfun, classes, what):
-    """vals[i] = printed list of (position, class) for case i.  Marks the case's oracle and returns the
-    pseudo-cases (one per history and class) that carry the failures through gv.standard_flow."""
+def parse_bools(txt):
+    return [x == "true" for x in re.findall(r"true|false", txt)]
+
+
+def derive_failures(cases, vals, kvals, classes, what):
+    """vals[i] = printed list of (position, class) for case i; kvals[i] = {class: value of the class predicate
+    `c0x_k class` on case i, evaluated by Coq in the same run (c01_report / c02_report)}.  Marks the case's oracle
+    and returns the pseudo-cases (one per history and class) that carry the failures through gv.standard_flow;
+    their `kcoq` is the already evaluated value of the class predicate."""
     extra = []
-    for c, v in zip(cases, vals):
+    for c, v, kv in zip(cases, vals, kvals):
         pairs = [(int(p), int(k)) for p, k in re.findall(r"\((\d+), (\d+)\)", v)]
         c["fails"] = pairs
         if not pairs:
@@ -62,7 +69,7 @@ def derive_failures(cases, vals, kfun, classes, what):
                  "tags": ["oracle-fail:K%d" % k]}
             if k in classes:
                 e["kid"] = classes[k]
-                e["kcoq"] = "%s %d %s" % (kfun, k, c["_args"])
+                e["kcoq"] = "true" if kv.get(k) else "false"
             extra.append(e)
     return extra
 
@@ -71,14 +78,14 @@ def run(tier, seed, replay_file=None):
     chk = gv.Check(PROP, tier, seed, level="proof")
     load_known_fallback(chk, PROP)
     proof = gv.proof_status(PROP, REQ_PROPS)
-    ncases = 700 if tier == "quick" else 9000
+    ncases = 1800 if tier == "quick" else 12000
     ok, out, binp = gv.cargo_build("c01")
     if not ok:
         chk.violation("build", {"what": "the harness no longer builds against /repo's working tree", "log": out[-3000:],
                                 "broken": ["correspondence C01: harness build failed"]}, no_input=True)
         return chk.finish(proof)
     rc, so, se, cases, dt = gv.run_harness(binp, ["--seed", seed, "--cases", ncases, "--tier", tier, "--prop", "c01"],
-                                           os.path.join(gv.BUILD, "out", "c01.jsonl"))
+                                           os.path.join(gv.BUILD, "out", "c01%s.jsonl" % TAG))
     if rc != 0:
         chk.violation("crash", {"what": "the harness crashed", "stderr": se, "broken": ["harness exit %d" % rc]}, no_input=True)
         return chk.finish(proof)
@@ -89,16 +96,18 @@ def run(tier, seed, replay_file=None):
         return chk.finish(proof)
     for c in cases:
         c["_args"] = split_term(c)
-    # one evaluation per history: (model == implementation, failing positions with their classes)
-    both = gv.coq_eval(PROP + "_oracle", REQ_RUN, ["(chk_hist %s, c01_fails %s)" % (c["_args"], c["_args"]) for c in cases], shard=200)
-    vals = []
+    # one evaluation per history (Run.v c01_report): model == implementation, the failing positions with their
+    # classes, and the class predicates c01_k 1 .. 7 on this history
+    both = gv.coq_eval(PROP + "_oracle" + TAG, REQ_RUN, ["c01_report %s" % c["_args"] for c in cases], shard=40)
+    vals, kvals = [], []
     for c, v in zip(cases, both):
-        m = re.match(r"\((true|false), (\[.*\])\)$", v)
+        m = re.match(r"\((true|false), (\[.*?\]), (\[.*\])\)$", v)
         if not m:
             raise RuntimeError("unexpected oracle value: %s" % v[:200])
         c["coq"] = m.group(1)       # the evaluated correspondence term (gv.standard_flow re-reads the literal)
         vals.append(m.group(2))
-    extra = derive_failures(cases, vals, "c01_k", CLASSES, "snapshot_ok")
+        kvals.append(dict(zip(range(1, 8), parse_bools(m.group(3)))))
+    extra = derive_failures(cases, vals, kvals, CLASSES, "snapshot_ok")
     allc = cases + extra
     gv.standard_flow(chk, REQ_RUN, allc, proof, "C01")
     nfail_hist = sum(1 for c in cases if c["oracle"] != "ok")
@@ -109,8 +118,11 @@ def run(tier, seed, replay_file=None):
     chk.coverage["steps"] = sum(len(c["in"].split("; ")) for c in cases)
     chk.coverage["rule"] = ("histories of 3-4 sessions (+ an observer) x 4-40 operations over <= 6 nodes / 6 edges / 6 triples, driven "
                             "single-threaded through GrafeoDB::session(): direct API and GQL / SPARQL statement templates; streams: corpus "
-                            "(witnesses of the _refuted theorems), overlap (writer's transaction open while another session reads), epoch "
-                            "(writes after commits), clean (built to stay outside the finding classes), random; a history is non-trivial "
+                            "(witnesses of the _refuted theorems), overlap (writer's transaction open while another session reads), own (a "
+                            "transaction reads its own creations / in-place changes / deletes through every path), epoch (writes after "
+                            "commits), clean (built to stay outside the finding classes), random; statements and scan-based reads go "
+                            "through Session::execute (GQL), execute_cypher, execute_with_params, execute_gremlin (unlabelled scan / count) "
+                            "and the GrafeoDB::execute* convenience calls (tags via:*); a history is non-trivial "
                             "when >= 2 sessions act and some read happens strictly inside another session's open transaction; distinct = "
                             "distinct (stream, operation list)")
     chk.coverage["samples"] = [{"kind": c["k"], "input": c["in"][:300], "impl": c["impl"][:300]} for c in cases[9:13]]
@@ -119,7 +131,7 @@ def run(tier, seed, replay_file=None):
         "nothing on the session / query path calls TransactionManager::record_write or record_read (so Session::commit cannot "
         "report a conflict); validated by the run: every commit result is compared",
         "hash-map iteration order is not observable: every list output is compared sorted",
-        "property indexes, edge properties, MERGE, Cypher/Gremlin/GraphQL renderings of the reads, real thread interleavings: see level_note",
+        "property indexes, edge properties, MERGE, GraphQL and most Gremlin renderings of the reads, real thread interleavings: see level_note",
     ]
     return chk.finish(proof)
 
